@@ -15,8 +15,8 @@ import (
 
 func init() {
 	eng.Register(&eng.Check{
-		ID: "C19",
-		Rule: "E2: every parser-produced tree of the C16 spaces (all trees of depth<=2 over 3 leaves, depth 3 over 2 [thorough 3] leaves, every operator x selector spelling x literal incl. ones needing %q escapes) x indent in {\"\", \" \", TAB, 3 blanks, \"%s\", \"%\"} x start level in {0,1,3}: ExpressionDump output is byte-equal to an independent reference renderer written from the documented format (pre-order, one block per node, one indent level per tree level, operator names, ALL/ANY + binding, dotted vs slash-joined selector, quoted literal only for equality/membership), no panic, two renders identical; plus Selector.String on constructed selectors of each type with 0..3 parts. Distinct by construction; non-trivial = tree with >=2 nodes or a literal needing escapes.",
+		ID:          "C19",
+		Rule:        "E2: every parser-produced tree of the C16 spaces (all trees of depth<=2 over 3 leaves, depth 3 over 2 [thorough 3] leaves, every operator x selector spelling x literal incl. ones needing %q escapes) x indent in {\"\", \" \", TAB, 3 blanks, \"%s\", \"%\"} x start level in {0,1,3}: ExpressionDump output is byte-equal to an independent reference renderer written from the documented format (pre-order, one block per node, one indent level per tree level, operator names, ALL/ANY + binding, dotted vs slash-joined selector, quoted literal only for equality/membership), no panic, two renders identical; plus Selector.String on constructed selectors of each type with 0..3 parts. Distinct by construction; non-trivial = tree with >=2 nodes or a literal needing escapes.",
 		Assumptions: []string{"reference renderer reads the tree's fields only (never calls the String/Dump methods under test); %q is Go's strconv.Quote"},
 		Run:         runC19,
 	})
